@@ -142,6 +142,11 @@ def generate(seed: int, tier: str) -> Dict[str, Any]:
         raw.setdefault("t4", {})["enabled"] = False
         agents = agents[:1]
         texts = texts[:1]
+        if r.chance(0.4):
+            # the same request in another spelling (case, padding): to the byte-hashing default encoder these are different
+            # questions, whatever a cache key thinks of them
+            texts = [texts[0], texts[0].title(), texts[0].upper(), "  " + texts[0] + " "][: r.randint(2, 4)]
+            raw.setdefault("t2", {})["sim_threshold"] = -1.0
         raw.setdefault("perf", {})["enabled"] = True
     ms_only = r.chance(0.25)  # the logical clock handed over as ctx.now_ms only
     for _ in range(n_ops):
